@@ -38,7 +38,7 @@ ASSUMPTIONS = [
     "lossless style set excludes right justification of the owner column and non-space chunk separators",
     "content = {owner: {(type, covers): (ttl, set of canonical rdata wire against the origin)}}",
 ]
-REQUIRED = ["mon.cname_conflict_injected", "mon.style_roundtrip", "mon.file_roundtrip", "mon.respelling", "mon.generate_vs_expansion", "mon.out_of_zone_ignored", "mon.cname_exclusive"]
+REQUIRED = ["mon.generate_partly_outside_zone", "mon.style_api_spellings", "mon.cname_conflict_injected", "mon.style_roundtrip", "mon.file_roundtrip", "mon.respelling", "mon.generate_vs_expansion", "mon.out_of_zone_ignored", "mon.cname_exclusive"]
 BUDGET = {"quick": 45.0, "thorough": 480.0}
 
 FACTORIES = [("plain", dns.zone.Zone), ("versioned", dns.versioned.Zone), ("btree", dns.btreezone.Zone)]
@@ -179,6 +179,24 @@ def check_styles(ctx, rng, mz, nstyles):
             cause = "want_generic+relativized-zone+no-style-origin" if (style.want_generic and relativize and origin_mode == "none") else "want_generic" if style.want_generic else "other"
             ctx.violation(f"zone-to_styled_text-raised:{cause}:" + core.exc_sig(e), f"{tag}: {e!r}", case)
             continue
+        # the other spellings of "write with this style" give the same octets
+        try:
+            import io as _io
+
+            other = {"to_text(style=)": z.to_text(style=style)}
+            f = _io.StringIO()
+            z.to_file(f, style=style)
+            other["to_file(style=)"] = f.getvalue()
+            f = _io.StringIO()
+            z.to_styled_file(style, f)
+            other["to_styled_file"] = f.getvalue()
+            for how, t2 in other.items():
+                ctx.count("mon.style_api_spellings")
+                if t2 != text:
+                    ctx.violation(f"style-ignored-or-differs:{how}", f"{tag}: {len(t2)} vs {len(text)} characters", case)
+                    break
+        except Exception as e:
+            ctx.violation("styled-output-spelling-raised:" + core.exc_sig(e), repr(e), case)
         try:
             z2 = dns.zone.from_text(text, origin=z.origin, relativize=relativize, zone_factory=factory, check_origin=False)
         except Exception as e:
@@ -289,7 +307,11 @@ def spell_zone(rng, mz, kind):
             else:
                 want_o = tuple(origin)
             if want_o != cur_origin:
-                lines.append("$ORIGIN " + RN.to_text(want_o))
+                if cur_origin is not None and len(want_o) > len(cur_origin) and want_o[len(want_o) - len(cur_origin):] == cur_origin and rng.random() < 0.5:
+                    # the argument of $ORIGIN is a domain name like any other: a relative one is relative to the origin in force
+                    lines.append("$ORIGIN " + dns.name.Name(want_o[: len(want_o) - len(cur_origin)]).to_text())
+                else:
+                    lines.append("$ORIGIN " + RN.to_text(want_o))
                 cur_origin = want_o
             ot = dns.name.Name(exact).relativize(dns.name.Name(want_o)).to_text()
         if kind in ("inherited-owner", "mixed") and last_owner == exact and rng.random() < 0.8:
@@ -405,6 +427,28 @@ def generate_case(rng):
     return gen, exp
 
 
+def check_generate_partly_outside(ctx, rng):
+    """a $GENERATE whose iterator sits in a label ABOVE the zone cut: some generated owners are in the zone, some are not; the
+    ones outside are ignored one by one, exactly as in the expansion"""
+    ctx.count("evaluations")
+    ctx.count("mon.generate_partly_outside_zone")
+    zname, factory = FACTORIES[rng.randrange(3)]
+    relativize = rng.random() < 0.5
+    inside = rng.randrange(0, 4)
+    head = "$TTL 300\n%d.gen.test. IN SOA ns.%d.gen.test. h.%d.gen.test. 1 2 3 4 5\n%d.gen.test. IN NS ns.%d.gen.test.\n" % ((inside,) * 5)
+    t1 = head + "$GENERATE 0-3 h.$.gen.test. A 10.0.0.$\n" + "after.%d.gen.test. A 10.9.9.9\n" % inside
+    t2 = head + "".join(f"h.{i}.gen.test. A 10.0.0.{i}\n" for i in range(4)) + "after.%d.gen.test. A 10.9.9.9\n" % inside
+    case = {"kind": "generate-partly-outside", "zone": zname, "relativize": relativize, "text": t1}
+    try:
+        o = f"{inside}.gen.test."
+        z1 = dns.zone.from_text(t1, origin=o, relativize=relativize, zone_factory=factory)
+        z2 = dns.zone.from_text(t2, origin=o, relativize=relativize, zone_factory=factory)
+        if GZ.content_of_lib_zone(z1) != GZ.content_of_lib_zone(z2):
+            ctx.violation("generate-differs-from-expansion:owners-partly-outside-zone", f"first in-zone index {inside}: {diffc(GZ.content_of_lib_zone(z1), GZ.content_of_lib_zone(z2))}", case)
+    except Exception as e:
+        ctx.violation(f"generate-or-expansion-rejected:partly-outside:{type(e).__name__}", repr(e), case)
+
+
 def check_respellings(ctx, rng, mz):
     ctx.count("evaluations")
     zname, factory = FACTORIES[rng.randrange(3)]
@@ -484,6 +528,7 @@ def run(spec, ctx):
         check_respellings(ctx, rng, mz)
         for _ in range(6):
             check_cname_conflicts(ctx, rng)
+        check_generate_partly_outside(ctx, rng)
         if i < 1:
             ctx.sample({"zone": GZ.mz_to_text(mz)[:600]})
 
